@@ -309,3 +309,27 @@ func Exact(b []byte) []byte {
 	copy(c, b)
 	return c[:len(b):len(b)]
 }
+
+// Roomy returns a private copy of b with `extra` bytes of spare capacity that
+// hold a canary pattern, and a function that reports whether the spare region
+// was written to (a library that appends to, or reslices and writes into, the
+// caller's slice modifies memory the caller owns beyond len).
+func Roomy(b []byte, extra int) ([]byte, func() bool) {
+	if b == nil {
+		return nil, func() bool { return false }
+	}
+	full := make([]byte, len(b)+extra)
+	copy(full, b)
+	for i := len(b); i < len(full); i++ {
+		full[i] = byte(0xC3 ^ i)
+	}
+	n := len(b)
+	return full[:n], func() bool {
+		for i := n; i < len(full); i++ {
+			if full[i] != byte(0xC3^i) {
+				return true
+			}
+		}
+		return false
+	}
+}
